@@ -166,6 +166,7 @@ def run(prog, run):
     r3_chunk(prog, run, ready)
     r4_classes(prog, run, ready, accumulators)
     r5_order(prog, run)
+    r6_discard(prog, run)
 
 
 APPENDS = ('append', 'operator+=', 'push_back')
@@ -250,14 +251,24 @@ def r4_classes(prog, run, ready, accumulators):
                              'the bytes are only compared with constants, so two bytes no comparison separates are treated alike', floor=0)
     REPR = {'ASCII': 0x41, 'continuation': 0xA9, '2-byte lead': 0xC3, '3-byte lead': 0xE2, '4-byte lead': 0xF0}
     for c in ready:
-        for slot in (c['target'] if c['kind'] == 'lambda' else [prog.fns.get(c['target']['usr'])]):
-            par = slot.parents()
-            # byte reads of an accumulator: at()/operator[] on a member byte array
+        for slot0 in (c['target'] if c['kind'] == 'lambda' else [prog.fns.get(c['target']['usr'])]):
+            # where the bytes of an accumulator are looked at: the slot itself, or a same-file helper that is handed the accumulator
+            scan = [(slot0, lambda f, o: f.nodes[f.skip(o)].get('f') in accumulators)]
+            for i, n in slot0.calls():
+                if n.get('op'):
+                    continue
+                for k, a in enumerate(n.get('args', [])):
+                    if slot0.nodes[slot0.skip(a)].get('f') in accumulators:
+                        for g in prog.callee_fns(slot0, n):
+                            if g.file == slot0.file and g.entry is not None and k < len(g.params):
+                                scan.append((g, lambda f, o, k=k: f.nodes[f.skip(o)].get('vk') == 'param' and f.nodes[f.skip(o)].get('pidx') == k))
+            slot, is_acc = scan[0]
             byte_reads = []
-            for i, n in slot.calls():
-                s = slot.sym(n)
-                if s and s['name'] in ('at', 'operator[]') and n.get('obj') is not None and slot.nodes[slot.skip(n['obj'])].get('f') in accumulators:
-                    byte_reads.append(i)
+            for fn_, pred_ in scan:
+                br = [i for i, n in fn_.calls() if (fn_.sym(n) or {}).get('name') in ('at', 'operator[]') and n.get('obj') is not None and pred_(fn_, n['obj'])]
+                if br:
+                    slot, is_acc, byte_reads = fn_, pred_, br
+            par = slot.parents()
             if not byte_reads:
                 run.info(rid, slot.loc(), 'no byte-wise boundary computation (stateful decoder or other scheme): rule not applicable')
                 continue
@@ -329,6 +340,72 @@ def r4_classes(prog, run, ready, accumulators):
                               'decoded before it is complete (or held back although complete)' % (a, b2, len(preds)))
             else:
                 run.ok(rid, slot.loc(), '%d byte comparisons separate ASCII / continuation / 2- / 3- / 4-byte lead bytes' % len(preds))
+            # the backward scan for the lead byte: a read can end after the third byte of a 4-byte character, so the scan has to be able to look at the last three
+            # bytes (trip bound of the loop that tests for continuation bytes, from its counter's start value, step and limit)
+            cont_tests = {p_ for (mask, op, cv, p_) in preds if mask == 0xC0 and cv == 0x80 and op in ('==', '!=')}
+            for b in slot.blocks.values():
+                t = b.get('term')
+                if not t or t.get('k') not in ('while', 'for', 'do') or 'cond' not in t:
+                    continue
+                dom_ = slot.dom()
+                body = {x for x in slot.blocks if b['succs'][0] is not None and ('b', b['succs'][0]) in dom_.get(('b', x), set())}
+                in_loop = any(slot.pos(pt) and (slot.pos(pt)[0] in body or pt in set(slot.walk(t['cond']))) for pt in cont_tests)
+                if not in_loop:
+                    continue
+                trips = _trip_bound(slot, t['cond'])
+                cond_nodes = set(slot.walk(t['cond']))
+                if trips is not None and any(slot.pos(br) and slot.pos(br)[0] not in body and br not in cond_nodes and not any(br in set(slot.walk(x)) for x in cond_nodes)
+                                             for br in byte_reads):
+                    trips += 1            # the loop steps over continuation bytes; the lead byte in front of them is read after the loop
+                run.instance(rid)
+                if trips is None:
+                    run.info(rid, slot.loc(t['cond']), 'the bound of the backward scan has a form the checker cannot measure: not decided')
+                    run.ok(rid, slot.loc(t['cond']), 'scan bound not measured', nontrivial=False)
+                elif trips < 3:
+                    run.violation(rid, '%s::readyRead-slot#scan-too-short' % SOCK, slot.loc(t['cond']),
+                                  'the backward scan for the lead byte of an incomplete character inspects at most the last %d byte(s): a 4-byte character cut after its third '
+                                  'byte is taken for complete and decoded as replacement characters' % trips)
+                else:
+                    run.ok(rid, slot.loc(t['cond']), 'the backward scan can inspect the last %d bytes' % trips)
+
+
+def _trip_bound(f, cond):
+    """upper bound on the iterations of a counting loop from one conjunct "counter < K" / "A - v < K" of its condition, or None"""
+    def conj(e):
+        bo = f.binop(f.skip(e))
+        if bo and bo[0] == '&&':
+            return conj(bo[1]) + conj(bo[2])
+        return [e]
+
+    def stepped(decl, ops):
+        return any(n['k'] == 'un' and n.get('op') in ops and f.nodes[f.skip(n['e'])].get('decl') == decl for n in f.nodes) or \
+            any(n['k'] == 'assign' and n.get('op') in ('+=', '-=') and f.nodes[f.skip(n['l'])].get('decl') == decl for n in f.nodes)
+    best = None
+    for c in conj(cond):
+        bo = f.binop(f.skip(c))
+        if not bo or bo[0] not in ('<', '<='):
+            continue
+        kv = f.const_value(bo[2])
+        if not kv or kv[0] != 'int':
+            continue
+        K = kv[1] + (1 if bo[0] == '<=' else 0)
+        x = f.nodes[f.skip(bo[1])]
+        trips = None
+        if x['k'] == 'var' and x.get('vk') == 'local':
+            d = f.defs().get(x['decl']) or {}
+            iv = f.const_value(d['init']) if d.get('init') is not None else None
+            if iv and iv[0] == 'int' and stepped(x['decl'], ('pre++', 'post++')):
+                trips = K - iv[1]
+        sub = f.binop(f.skip(bo[1]))
+        if trips is None and sub and sub[0] == '-':
+            v = f.nodes[f.skip(sub[2])]
+            if v['k'] == 'var' and v.get('vk') == 'local' and stepped(v['decl'], ('pre--', 'post--')):
+                d = f.defs().get(v['decl']) or {}
+                if d.get('init') is not None and f.fmt(d['init'], inline=False) == f.fmt(sub[1], inline=False):
+                    trips = K
+        if trips is not None:
+            best = trips if best is None else min(best, trips)
+    return best
 
 
 def r5_order(prog, run):
@@ -363,3 +440,57 @@ def r5_order(prog, run):
                       % (names[a], names[b]), cfgx.describe_path(pd, exits[bad[0]]))
     else:
         run.ok(rid, pd.loc(), 'emission order open, stanzas, close on all %d path classes' % len(exits))
+
+
+def r6_discard(prog, run):
+    """what was received is dropped only once it has been delivered"""
+    from ..effects import classify_use
+    rid = run.rule('C03.R6', 'processData never discards accumulated text because a parse attempt failed or because the buffer reached some size: text that has not been parsed yet '
+                             'stays until a later read completes it (where the buffer stands when such a condition is tested depends on how the reads were split)', floor=1)
+    pd = prog.fn(SOCK + '::processData')
+    # the accumulator: the member the chunk (parameter 0) is appended to
+    acc = set()
+    for i, n in pd.calls():
+        s_ = pd.sym(n)
+        if s_ and s_['name'] in APPENDS and n.get('obj') is not None and any(pd.nodes[j]['k'] == 'var' and pd.nodes[j].get('vk') == 'param' and pd.nodes[j].get('pidx') == 0
+                                                                         for a in n.get('args', []) for j in pd.walk(a)):
+            o = pd.nodes[pd.skip(n['obj'])]
+            if o['k'] == 'mem':
+                acc.add(o['f'])
+    for i, n in pd.all_nodes('assign'):
+        if n['op'] == '+=' and pd.nodes[pd.skip(n['l'])]['k'] == 'mem':
+            acc.add(pd.nodes[pd.skip(n['l'])]['f'])
+    if not acc:
+        raise AnalysisBroken('C03.R6: the member processData accumulates the received text in was not found')
+    seen = 0
+    for i, n in enumerate(pd.nodes):
+        if n['k'] != 'mem' or n.get('f') not in acc:
+            continue
+        kind, how = classify_use(pd, i)
+        if kind != 'write' or how.split(' ')[0] in APPENDS or how.startswith(('assign +=', 'append', 'operator+=', 'push_back')):
+            continue
+        seen += 1
+        run.instance(rid)
+        ok, bad = None, None
+        for c, pol in pd.atomic_assertions_at(i):
+            t = pd.fmt(c)
+            if 'QDomDocument::setContent' in t:
+                top = pd.nodes[pd.skip(c)]
+                neg = top['k'] == 'un' and top.get('op') == '!'
+                if (pol is True and not neg) or (pol is False and neg):
+                    ok = 'after a successful parse'
+                else:
+                    bad = 'after a failed parse'
+            bo = pd.binop(pd.skip(c))
+            if bo and bo[0] in ('<', '<=', '>', '>=') and n['name'] in t and any(x in t for x in ('::size()', '::length()', '::count()')):
+                bad = bad or 'depending on the size of the buffer'
+        if ok and not bad:
+            run.ok(rid, pd.loc(i), '%s %s: %s' % (n['name'], how, ok))
+        elif not bad:
+            run.ok(rid, pd.loc(i), '%s %s before the parse attempt, not conditioned on the size of the buffer (whitespace handling)' % (n['name'], how), nontrivial=False)
+        else:
+            run.violation(rid, 'processData#discards-unparsed#%s' % how.split(' ')[0], pd.loc(i),
+                          'processData throws away the accumulated text (%s %s) %s: complete stanzas that are waiting in the buffer behind an incomplete one are lost, and '
+                          'whether that happens depends on where the reads ended' % (n['name'], how, bad))
+    if not seen:
+        raise AnalysisBroken('C03.R6: processData never clears its buffer')
